@@ -22,8 +22,6 @@ RULES = {
                     "its remaining in-degree (loop invariant: indegree[v] = number of incoming edges from unvisited nodes)",
     "LAYER-TRUSTED": "TRUSTED: kahn assigns layer numbers < number of nodes (every iteration with a non-empty "
                      "frontier visits at least one previously unvisited node)",
-    "COUNT-TRUSTED": "TRUSTED: in delete_edges / delete_nodes_witness, remove_count <= count (each increment flips a "
-                     "distinct false slot among `count` slots)",
     "LAXFUNCTOR-ARITY-TRUSTED": "TRUSTED (consequence of the user contract A_L): the tensor of the user functor's operation "
                                 "images has Σ_e Σ_{v∈sources(e)} |F(label v)| sources and likewise targets; used only to excuse the "
                                 "absent results of try_define_map_arrow / map_arrow_witness whose lax composition arity check fails",
@@ -70,12 +68,8 @@ def in_chain(fr, *suffixes):
 
 def trusted_sub(I, st, fr, a, b):
     """COUNT-TRUSTED: `count - remove_count` in the deletion routines."""
-    if in_chain(fr, "::delete_edges", "::delete_nodes_witness"):
-        at = list(b.atoms())
-        if len(at) == 1 and isinstance(at[0], tuple) and at[0][0] == "loopvar" and at[0][1][-1] == "remove_count" \
-                and b == Poly.atom(at[0]):
-            I.lemma_uses["COUNT-TRUSTED"] = I.lemma_uses.get("COUNT-TRUSTED", 0) + 1
-            return "COUNT-TRUSTED"
+    # (the former lemma COUNT-TRUSTED — remove_count <= count in the deletion routines, recognised by the variable's
+    # name — is gone: the loop invariant `counter ∓ #true(flags) = const` is inferred, see loops.py `count_flags`)
     return None
 
 
